@@ -33,19 +33,25 @@ Proof.
   apply (py_eval_ok_vstr _ v). apply evalrepr_v. exact H.
 Qed.
 
-Lemma string_reload_on_domain : forall name fresh oks v,
-  name_ok name = true -> vstr v = true -> string_dom v = true -> hd_ok oks = true ->
+Lemma string_reload : forall name fresh oks v,
+  name_ok name = true -> vstr v = true -> hd_ok oks = true ->
   reload name KString fresh oks (PS v) = Ok (PS v).
 Proof.
-  intros name fresh oks v Hn Hv Hd Ho.
+  intros name fresh oks v Hn Hv Ho.
   rewrite reload_ok; [|exact Hn|cbn [str_of]; apply vstr_string_str; exact Hv].
-  apply (string_set_roundtrip_on_domain evalrepr_v); assumption.
+  apply (string_set_roundtrip evalrepr_v); assumption.
 Qed.
 
-Lemma string_reload_refuted :
-  exists name v, name_ok name = true /\ vstr v = true /\ string_dom v = false /\
-    reload name KString (PS []) [] (PS v) = Raise InvalidRegistryValue.
-Proof. exists [118], [DQ]. repeat split; vm_compute; reflexivity. Qed.
+(* the old witnesses of F16 *)
+Example string_reload_quotes :
+  reload [118] KString (PS []) [] (PS [DQ]) = Ok (PS [DQ]) /\
+  reload [118] KString (PS []) [] (PS [DQ; 97; DQ]) = Ok (PS [DQ; 97; DQ]).
+Proof. vm_compute. split; reflexivity. Qed.
+
+(* names as the registry builds them: join_names of blank-free components, not a comment line *)
+Lemma joined_name_ok ns :
+  nows (join_names ns) = true -> startswith [HASH] (join_names ns) = false -> name_ok (join_names ns) = true.
+Proof. intros H1 H2. unfold name_ok. rewrite H1, H2, join_names_escpar. reflexivity. Qed.
 
 Lemma boolean_reload : forall name fresh oks b,
   name_ok name = true -> hd_ok oks = true -> reload name KBoolean fresh oks (PB b) = Ok (PB b).
@@ -76,20 +82,18 @@ Proof.
 Qed.
 
 (* round-trip safe values never disturb the tree: String values of the domain, booleans, integers *)
-Lemma string_value_safe : forall dflt v, vstr v = true -> string_dom v = true ->
-  safe pv (k_reparse KString dflt) (PS v).
+Lemma string_value_safe : forall dflt v, vstr v = true -> safe pv (k_reparse KString dflt) (PS v).
 Proof.
-  intros dflt v Hv Hd. unfold safe, k_reparse.
-  apply (string_set_roundtrip_on_domain evalrepr_v); [exact Hv|exact Hd|reflexivity].
+  intros dflt v Hv. unfold safe, k_reparse.
+  apply (string_set_roundtrip evalrepr_v); [exact Hv|reflexivity].
 Qed.
 Lemma boolean_value_safe : forall dflt b, safe pv (k_reparse KBoolean dflt) (PB b).
 Proof. intros dflt b. unfold safe, k_reparse. apply bool_roundtrip. reflexivity. Qed.
 Lemma integer_value_safe : forall lo dflt z, int_accepts lo z = true -> safe pv (k_reparse (KInteger lo) dflt) (PI z).
 Proof. intros lo dflt z H. unfold safe, k_reparse. apply int_roundtrip; [reflexivity|exact H]. Qed.
 
-(* outside the domain the general value cannot even be resolved for a channel *)
-Lemma specific_refuted :
-  exists v c, string_dom v = false /\
-    snd (step pv (k_reparse KString (PS [])) (k_settext KString) (mktree pv (PS v) [] []) (OGet (AC c)))
-    = Raise InvalidRegistryValue.
-Proof. exists [DQ], [35; 97]. split; vm_compute; reflexivity. Qed.
+(* the old witness of F16 in the tree: the general value DQ resolves for a channel *)
+Example specific_quote :
+  snd (step pv (k_reparse KString (PS [])) (k_settext KString) (mktree pv (PS [DQ]) [] []) (OGet (AC [35; 97])))
+  = Ok (PS [DQ]).
+Proof. vm_compute. reflexivity. Qed.
